@@ -1,6 +1,10 @@
 """Lifter for C12: through WHICH conversion does each user-supplied argument pass before it reaches a pandas
 operation that aligns on index labels (column assignment into a DataFrame, a DataFrame / Series constructor, a dict
 that becomes a DataFrame, a `load_data` that builds `tags`)?   ->  lean/FairModel/Generated/ContainerSites.lean
+The sinks INSIDE `UtilityParity.load_data` / `Moment.load_data` (`self.tags = pd.DataFrame({_LABEL: y})`,
+`self.tags[_GROUP_ID] = sensitive_features`, `self.tags[_EVENT] = event`) are rows too: a bare parameter stored there gets the
+join of the classes of the argument at every `super().load_data(..)` call that reaches the function (`inner_load_data_rows`;
+the class hierarchy deciding what `super()` reaches is checked, an unknown class with a `load_data` is refused).
 
 For every SINK of the functions listed in `SITES` the expression stored at the sink is classified:
 
@@ -425,6 +429,107 @@ def module_consts(tree):
     return out
 
 
+MO = "fairlearn/reductions/_moments/moment.py"
+# the `load_data` methods that `super().load_data(..)` of the public moments resolves to:
+# (entry label, file, function, [(caller entry label, file, caller function)], class of the function, expected base classes)
+INNER_LOAD_DATA = [
+    ("UtilityParity.load_data", UP, "UtilityParity.load_data",
+     [(c + ".load_data", UP, c + ".load_data") for c in
+      ("DemographicParity", "TruePositiveRateParity", "FalsePositiveRateParity", "EqualizedOdds", "ErrorRateParity")]),
+    ("Moment.load_data", MO, "Moment.load_data",
+     [("UtilityParity.load_data", UP, "UtilityParity.load_data"), ("ErrorRate.load_data", ER, "ErrorRate.load_data"),
+      ("BoundedGroupLoss.load_data", BGL, "ConditionalLossMoment.load_data")]),
+]
+# class -> the class whose load_data its `super().load_data` reaches (checked against the `class X(Base)` headers)
+SUPER_OF = {"DemographicParity": "UtilityParity", "TruePositiveRateParity": "UtilityParity", "FalsePositiveRateParity": "UtilityParity",
+            "EqualizedOdds": "UtilityParity", "ErrorRateParity": "UtilityParity", "UtilityParity": "ClassificationMoment",
+            "ErrorRate": "ClassificationMoment", "ConditionalLossMoment": "LossMoment", "ClassificationMoment": "Moment",
+            "LossMoment": "Moment"}
+
+
+def sinks_tags(F):
+    """the sinks inside a `load_data`: `self.tags[k] = e` and the dict handed to `pd.DataFrame({..})`"""
+    out = []
+    for node in ast.walk(F.fn):
+        if isinstance(node, ast.Assign) and len(node.targets) == 1 and isinstance(node.targets[0], ast.Subscript) \
+                and ast.unparse(node.targets[0].value) == "self.tags":
+            out.append((node, node.value, ast.unparse(node.targets[0])))
+        if isinstance(node, ast.Call) and call_name(node) in ("pd.DataFrame", "pd.DataFrame.from_dict") and node.args \
+                and isinstance(node.args[0], ast.Dict):
+            for k, v in zip(node.args[0].keys, node.args[0].values):
+                out.append((node, v, f"{call_name(node)}({{{ast.unparse(k)}: ..}})"))
+        if isinstance(node, ast.Call) and call_name(node) in ("pd.DataFrame", "pd.Series", "pd.concat") and node.args \
+                and not isinstance(node.args[0], (ast.Dict, ast.Constant)) and any(
+                    isinstance(n, ast.Name) and n.id in F.params for n in ast.walk(node.args[0])):
+            out.append((node, node.args[0], f"{call_name(node)}({ast.unparse(node.args[0])[:40]})"))
+    return out
+
+
+def inner_load_data_rows(repo, trees, rows):
+    """Rows for the sinks INSIDE `UtilityParity.load_data` / `Moment.load_data` (where y, the sensitive features and the event
+    are put into `self.tags`).  A bare parameter stored there is as label-free as what every caller passes: its class is the
+    join of the classes of the corresponding argument at every `super().load_data(..)` call that reaches the function (the
+    rows of the public moments above; for `Moment.load_data` also the call in `UtilityParity.load_data`, whose arguments are
+    that function's own parameters).  The class hierarchy that decides which function `super()` reaches is checked."""
+    for rel in (UP, ER, BGL, MO):
+        if rel not in trees:
+            trees[rel] = ast.parse(translate._read(repo, rel))
+    # hierarchy: every class of the three moment files that defines load_data is known, with the expected base
+    defs = {}
+    for rel in (UP, ER, BGL, MO):
+        for n in trees[rel].body:
+            if isinstance(n, ast.ClassDef):
+                defs[n.name] = (rel, [ast.unparse(b) for b in n.bases], any(isinstance(f, ast.FunctionDef) and f.name == "load_data" for f in n.body))
+    for cls, (rel, bases, has) in defs.items():
+        if cls == "Moment":
+            continue
+        if has and cls not in SUPER_OF:
+            raise U(f"{rel}: class {cls} defines load_data but is not in the site table")
+        if cls in SUPER_OF and bases != [SUPER_OF[cls]]:
+            raise U(f"{rel}: class {cls} has bases {bases}, expected [{SUPER_OF[cls]}]")
+    for mid in ("ClassificationMoment", "LossMoment"):
+        if mid not in defs or defs[mid][2]:
+            raise U(f"{MO}: {mid} is missing or defines its own load_data")
+    out = []
+    param_class = {}          # entry -> {parameter: class}
+    for entry, rel, qual, callers in INNER_LOAD_DATA:
+        F = Fn(find_func(trees[rel], qual), f"{rel}:{qual}")
+        pc = {}
+        for centry, crel, cqual in callers:
+            CF = Fn(find_func(trees[crel], cqual), f"{crel}:{cqual}")
+            calls = [n for n in ast.walk(CF.fn) if isinstance(n, ast.Call) and call_name(n) == "super().load_data"]
+            if len(calls) != 1:
+                raise U(f"{crel}:{cqual}: expected exactly one super().load_data(..) call")
+            c = calls[0]
+            bound = dict(zip(F.params, c.args))
+            for k in c.keywords:
+                if k.arg is None or k.arg in bound or k.arg not in F.params:
+                    raise U(f"{crel}:{cqual}: cannot bind {ast.unparse(c)} to the parameters {F.params}")
+                bound[k.arg] = k.value
+            for prm, a in bound.items():
+                if isinstance(a, ast.Name) and a.id in CF.params and centry in param_class and not CF.assigns.get(a.id):
+                    cl = param_class[centry].get(a.id, "raw")     # the caller's own (never re-assigned) parameter
+                else:
+                    cl = CF.classify(a, c)
+                pc.setdefault(prm, []).append(cl)
+        param_class[entry] = {prm: Fn.join(cls) for prm, cls in pc.items()}
+        sinks = sinks_tags(F)
+        if not sinks:
+            raise U(f"{rel}:{qual}: no `self.tags` sink found (the function changed shape)")
+        for at, expr, what in sinks:
+            if isinstance(expr, ast.Name) and expr.id in F.params and not F.assigns.get(expr.id):
+                cl = param_class[entry].get(expr.id)
+                if cl is None or cl == "none":
+                    cl = "raw" if cl is None else "none"
+            else:
+                cl = F.classify(expr, at)
+            if cl == "none":
+                continue
+            org = sorted(F.origin(expr)) or ["?"]
+            out.append({"entry": entry, "arg": "+".join(org), "sink": what, "expr": ast.unparse(expr), "conv": cl})
+    return out
+
+
 def analyse(repo):
     rows = []
     trees = {}
@@ -448,6 +553,7 @@ def analyse(repo):
                 org = [what.split("(")[-1].rstrip(".=)") .replace("arg 1", "y")]
             rows.append({"entry": entry, "arg": "+".join(org) + (f" [{gtxt}]" if gtxt else ""), "sink": what,
                          "expr": ast.unparse(expr).replace(".to_numpy()", ".values"), "conv": cls})   # one spelling in the emitted comment
+    rows += inner_load_data_rows(repo, trees, rows)
     # structural facts that make the classification meaningful
     t = trees[TO]
     rg = find_func(t, "_reformat_and_group_data")
